@@ -501,8 +501,16 @@ func (f *oFun) block(stmts []ast.Stmt, final *string, indent string) string {
 			}
 			var binds []string
 			if st.Tok == token.ASSIGN {
+				if final == nil && len(names) == 1 && f.vars[names[0]] && names[0] != f.recv {
+					// straight-line re-assignment of a parameter or local at the top level of the function body
+					// (no join point follows inside a branch): a shadowing let
+					a := f.expr(st.Rhs[0], &binds)
+					emit(binds)
+					lines = append(lines, fmt.Sprintf("%slet v_%s := %s in", indent, names[0], a))
+					continue
+				}
 				if final == nil || !last || len(names) != 1 || names[0] != *final {
-					fail(s.Pos(), "assignment `=` other than the single assignment of an if/else branch to the declared variable")
+					fail(s.Pos(), "assignment `=` other than the single assignment of an if/else branch to the declared variable, or a top-level re-assignment of a parameter or local")
 				}
 				a := f.expr(st.Rhs[0], &binds)
 				emit(binds)
